@@ -6,6 +6,10 @@
 (*   WalkEnd  ... that ends exactly at the end of the file                                         *)
 (*   Maof     WDL: 4096 entries; exactly the tiles of the definition are non-zero; entry y*64+x is *)
 (*            the header offset of a MARE chunk whose payload is the height map of tile (x,y)      *)
+(*   Chain    a conversion history (A->B->A, A->B->C, single steps through WdlFile::convert_to) ends  *)
+(*            in an error only where the model's convert_wdl_file refuses                           *)
+(*   Source   at the end of a history the tile data equal those of the starting object; the object   *)
+(*            then goes through Write .. Rewrite like a freshly built one (MAOF stays the verdict)   *)
 (*   Parse    per-section content tokens equal the tokens of the object that was written           *)
 (*   Rewrite  the second write is byte-identical                                                   *)
 (*   Convert  tile data (MAIN / height maps, holes where both versions have them) preserved, in     *)
@@ -23,21 +27,36 @@ tvars == <<tl, tdef, tsrc, twr, tcf>>
 
 SeqToSet(tseq) == {tseq[ti] : ti \in 1..Len(tseq)}
 TilesOf(tseq) == {<<tseq[ti][1], tseq[ti][2]>> : ti \in 1..Len(tseq)}
-DefOf(e) ==
+\* the object the trace is about: the case's definition, pushed through the conversion history (if any) by the
+\* specification's own model of the conversions
+BaseDefOf(e) ==
     IF e.fmt = "wdt"
-    THEN [fmt |-> "wdt", ver |-> e.ver, flags |-> SeqToSet(e.flags), hasMwmo |-> e.hasMwmo, names |-> e.names,
-          hasModf |-> e.hasModf, nModf |-> e.nModf, hasMaid |-> e.hasMaid, nSec |-> e.nSec, tiles |-> TilesOf(e.tiles), mode |-> e.mode]
-    ELSE IF e.fmt = "wdl"
-    THEN [fmt |-> "wdl", ver |-> e.ver, tiles |-> TilesOf(e.tiles), holes |-> TilesOf(e.holes), names |-> e.names,
-          nIdx |-> e.nIdx, nPlace |-> e.nPlace, nMldd |-> e.nMldd, nMlmd |-> e.nMlmd, mode |-> e.mode]
-    ELSE [fmt |-> e.fmt, mode |-> e.mode]
+    THEN [ver |-> e.ver, flags |-> SeqToSet(e.flags), hasMwmo |-> e.hasMwmo, names |-> e.names,
+          hasModf |-> e.hasModf, nModf |-> e.nModf, hasMaid |-> e.hasMaid, nSec |-> e.nSec, tiles |-> TilesOf(e.tiles)]
+    ELSE [ver |-> e.ver, tiles |-> TilesOf(e.tiles), holes |-> TilesOf(e.holes), names |-> e.names,
+          nIdx |-> e.nIdx, nPlace |-> e.nPlace, nMldd |-> e.nMldd, nMlmd |-> e.nMlmd]
+DefOf(e) ==
+    IF e.fmt \in {"wdt", "wdl"}
+    THEN LET tb == BaseDefOf(e)
+             tf == IF e.fmt = "wdt" THEN WdtChainDef(tb, e.chain) ELSE WdlChainDef(e.api, tb, e.chain)
+         IN tf @@ [fmt |-> e.fmt, mode |-> e.mode, chain |-> e.chain, api |-> e.api, base |-> tb]
+    ELSE [fmt |-> e.fmt, mode |-> e.mode, chain |-> <<>>]
 
 Wdt == tdef.fmt = "wdt"
 Specs == IF Wdt THEN WdtChunkSpecs(tdef) ELSE WdlChunkSpecs(tdef)
-Sections == IF Wdt THEN WdtContentSections ELSE WdlSections(tdef.ver)
+\* a converted WDT may still carry an MWMO its new version forbids (the writer leaves it out): not compared
+Sections == IF Wdt THEN (IF ShouldHave("MWMO", WmoOnly(tdef), tdef.ver) THEN WdtContentSections ELSE WdtContentSections \ {"mwmo"})
+            ELSE WdlSections(tdef.ver)
 TokEq(ta, tb, tsecs) == \A ts \in tsecs : ta[ts] = tb[ts]
 
 \* ---- P-conjuncts: <<holds, why>> ------------------------------------------------------------------
+\* a conversion history ends in an error only where the model says convert_wdl_file refuses (holes would be lost)
+ChainP(e)   == <<e.res = "ok" \/ (~Wdt /\ WdlChainRefusesAt(tdef.api, tdef.base, tdef.chain, e.at)), "chain-failed">>
+\* tile data at the end of a history = tile data of the object it started from (holes where every version has them)
+SourceP(e)  == IF tdef.chain = <<>> THEN <<TRUE, "">>
+               ELSE IF Wdt THEN <<e.toks.main = e.base.main, "chain-tiles">>
+               ELSE << /\ e.toks.tiles = e.base.tiles
+                       /\ (HolesSurviveChain(tdef.base.ver, tdef.chain) => e.toks.holes = e.base.holes), "chain-tiles">>
 WriteP(e)   == <<e.res = "ok", "write-rejected">>
 ChunksP(e)  == <<CF_FitsAll(tcf, e.cs), "framing">>
 WalkEndP(e) == <<CF_Done(tcf) /\ e.cur = tcf.cur /\ e.len = Head(tcf.lim), "framing-end">>
@@ -78,19 +97,28 @@ PofEvent(e) == CASE e.ev = "Write"   -> WriteP(e)
                  [] e.ev = "Rewrite" -> RewriteP(e)
                  [] e.ev = "Convert" -> ConvertP(e)
                  [] e.ev = "Coord"   -> CoordP(e)
-                 [] e.ev \in {"Reset", "Source"} -> <<TRUE, "">>
+                 [] e.ev = "Chain"   -> ChainP(e)
+                 [] e.ev = "Source"  -> SourceP(e)
+                 [] e.ev = "Reset"   -> <<TRUE, "">>
                  [] OTHER -> Assert(FALSE, <<"unknown event", e.ev>>)
 
 \* tags that decide version detection, without laying out the whole file
 WdlTagsPresent(td) == LET th == WdlHeadSpecs(td) IN
                       [ti \in 1..Len(th) |-> th[ti][1]] \o (IF \E tt \in td.tiles : MahoWritten(td, tt) THEN <<"MAHO">> ELSE <<>>)
 
+\* convert_wdl_file from a Legion+ object with MLMD placements to a WMO-chunk version invents file names
+\* ("FileDataID_<id>"): their byte length is not a function of the shape, so the layout model stays silent
+LayoutKnown ==
+    \/ Wdt \/ tdef.chain = <<>> \/ tdef.api # "file"
+    \/ LET tds == WdlChainDefs(tdef.api, tdef.base, tdef.chain) IN
+       \A tk \in 1..Len(tdef.chain) : ~(HasMlChunks(tds[tk].ver) /\ HasWmoChunks(tdef.chain[tk]) /\ tds[tk].nMlmd > 0)
+
 \* ---- D-conjuncts: <<holds, what>> ----------------------------------------------------------------
 DofEvent(e) ==
-    CASE e.ev = "Source"  -> <<~Wdt \/ ((e.warnings = 0) <=> WdtValid(tdef)), "validate-vs-WdtValid">>
-      [] e.ev = "Write"   -> <<e.res # "ok" \/ e.len = CF_TotalSize(Specs), "file-size">>
+    CASE e.ev = "Source"  -> <<~Wdt \/ tdef.chain # <<>> \/ ((e.warnings = 0) <=> WdtValid(tdef)), "validate-vs-WdtValid">>
+      [] e.ev = "Write"   -> <<e.res # "ok" \/ ~LayoutKnown \/ e.len = CF_TotalSize(Specs), "file-size">>
       [] e.ev = "WalkEnd" -> LET tspecs == Specs  tseen == tcf.seen IN
-                             <<[ti \in 1..Len(tseen) |-> <<tseen[ti].tag, tseen[ti].size>>] = tspecs, "chunk-order-or-size">>
+                             <<~LayoutKnown \/ [ti \in 1..Len(tseen) |-> <<tseen[ti].tag, tseen[ti].size>>] = tspecs, "chunk-order-or-size">>
       [] e.ev = "Parse"   -> <<e.res # "ok" \/ e.det = (IF Wdt THEN DetectVersion(tdef.hasMaid, MwmoWritten(tdef), tdef.hasModf, tdef.flags, tdef.ver)
                                                       ELSE DetectWdl(WdlTagsPresent(tdef), IF tdef.mode = "latest" THEN "Latest" ELSE tdef.ver)),
                                "detected-version">>
@@ -101,7 +129,7 @@ DofEvent(e) ==
       [] OTHER -> <<TRUE, "">>
 
 \* ---- state ---------------------------------------------------------------------------------------
-NoDef == [fmt |-> "-", mode |-> "-"]
+NoDef == [fmt |-> "-", mode |-> "-", chain |-> <<>>]
 Init == /\ tl = 1 /\ tdef = NoDef /\ tsrc = 0 /\ twr = 0 /\ tcf = CF_Init(0, 0)
         /\ vfmt = "trace" /\ vdef = 0 /\ vpc = "" /\ vcf = 0 /\ vrd = 0 /\ vrpos = 0 /\ vmaof = 0
 
